@@ -24,6 +24,8 @@
  *   g <n>                                   a collection happened (n = number so far)
  *   with --peak instead of --trace no t lines are written; PEAK sp=<max sp> maxdepth=<max number of
  *   frames on the fp chain> steps=<n> collections=<number of collections run> is printed before END (for long runs); --nocode omits I/S lines
+   GCROOTS mismatch …                     a collection was given a stack extent / environment that differs
+ *                                           from sp+1 / gp at the next instruction boundary (first 3 only)
  *   OUT <hex of everything the program printed>   (stdout of the run is captured via a pipe)
  *   END <ret> <result type> <result value> steps=<n>
  */
@@ -66,9 +68,25 @@ static void meta_hook(unsigned int addr, unsigned int params, unsigned int freev
     nmetas++;
 }
 
+/* the root set handed to the last collection; compared with the registers at the next instruction boundary */
+static int gc_pending = 0, gc_last_size = 0; static mem_ptr gc_last_gv = 0; static unsigned gc_boundary_mismatch = 0;
+
 static void step_hook(vm * m, bytecode * bc)
 {
     if (m->sp > peak_sp) peak_sp = m->sp;
+    if (gc_pending)
+    {
+        /* gc_run is the last action of the instruction that triggers it: the stack extent and the
+           environment it was given must be the machine's registers at this instruction boundary */
+        gc_pending = 0;
+        if (gc_last_size != m->sp + 1 || gc_last_gv != m->gp)
+        {
+            gc_boundary_mismatch++;
+            if (gc_boundary_mismatch <= 3)
+                fprintf(out, "GCROOTS mismatch collection=%u roots_stack_size=%d sp_plus_1=%d roots_env=%u gp=%u ip=%u\n",
+                        gc_count, gc_last_size, m->sp + 1, (unsigned)gc_last_gv, (unsigned)m->gp, m->ip);
+        }
+    }
     if (!peak_only)
     {
         unsigned h = 0; int k;
@@ -83,7 +101,7 @@ static void step_hook(vm * m, bytecode * bc)
     }
     if (++steps > max_steps)
     {
-        if (peak_only) fprintf(out, "PEAK sp=%d maxdepth=%d steps=%lu collections=%u\n", peak_sp, peak_frames, steps, gc_count);
+        if (peak_only) fprintf(out, "PEAK sp=%d maxdepth=%d steps=%lu collections=%u gcroots_mismatch=%u\n", peak_sp, peak_frames, steps, gc_count, gc_boundary_mismatch);
         fprintf(out, "END budget 0 0 steps=%lu\n", steps);
         fflush(out);
         _exit(0);
@@ -101,9 +119,11 @@ static int gc_decide(gc * c)
     return 2;
 }
 
+
 static void gc_after(gc * c, gc_stack * s, int n, mem_ptr gv)
 {
     gc_count++;
+    gc_pending = 1; gc_last_size = n; gc_last_gv = gv;
     if (!peak_only) fprintf(out, "g %u\n", gc_count);
 }
 
@@ -210,7 +230,7 @@ int main(int argc, char ** argv)
             { unsigned char b[4096]; ssize_t k; while ((k = read(tfd, b, sizeof b)) > 0) for (ssize_t j = 0; j < k; j++) fprintf(out, "%02x", b[j]); }
             fprintf(out, "\n");
             close(tfd);
-            if (peak_only) fprintf(out, "PEAK sp=%d maxdepth=%d steps=%lu collections=%u\n", peak_sp, peak_frames, steps, gc_count);
+            if (peak_only) fprintf(out, "PEAK sp=%d maxdepth=%d steps=%lu collections=%u gcroots_mismatch=%u\n", peak_sp, peak_frames, steps, gc_count, gc_boundary_mismatch);
             if (ret == 0)
             {
                 switch (result.type)
